@@ -204,7 +204,10 @@ pub fn drive<F: Future>(mut fut: Pin<&mut F>) -> Driven<F::Output> {
     let mut cx = Context::from_waker(&waker);
     let mut spins = 0u64;
     loop {
-        match fut.as_mut().poll(&mut cx) {
+        vcore::report::watch_tick();
+        let polled = fut.as_mut().poll(&mut cx);
+        vcore::report::watch_exit();
+        match polled {
             Poll::Ready(v) => return Driven::Done(v),
             Poll::Pending => {
                 if !flag.0.swap(false, Ordering::SeqCst) {
